@@ -64,7 +64,7 @@ def lin_history(rng, state, group, cid):
         setup.append({"op": "addRule", "id": rng.choice(RIDS), "rule": small_rule(rng)})
     clients = [[gen(rng) for _ in range(rng.randint(1, 4))] for _ in range(k)]
     return {"kind": "c12.conc", "cid": cid, "state": state, "seed": rng.randint(1, 10**6), "jitter_us": rng.choice([0, 20, 60, 150]),
-            "setup": setup, "clients": clients, "group": group, "timeout_ms": 10000}
+            "setup": setup, "clients": clients, "group": group, "timeout_ms": 10000, "hooks": rng.random() < 0.4}
 
 
 def stress_case(rng, state, k, nops, cid, expiry=False):
@@ -75,7 +75,7 @@ def stress_case(rng, state, k, nops, cid, expiry=False):
         setup += [{"op": "addRule", "id": "er%d" % i, "rule": dict(small_rule(rng), ttl="1s")} for i in range(2)]
         setup.append({"op": "sleep", "ms": 2100})
     return {"kind": "c12.conc", "cid": cid, "state": state, "seed": rng.randint(1, 10**6), "jitter_us": rng.choice([20, 80]),
-            "setup": setup, "clients": clients, "timeout_ms": 30000, "group": "stress"}
+            "setup": setup, "clients": clients, "timeout_ms": 30000, "group": "stress", "hooks": rng.random() < 0.5}
 
 
 # ------------------------------------------------------------------ running the -race driver
